@@ -83,7 +83,7 @@ Lemma get_affine_after st sh :
 Proof.
   intros H s1. pose proof (get_shape_again st sh H) as Hag. fold s1 in Hag.
   unfold get_affine. rewrite Hag.
-  destruct (1 <? length (files_info s1) / nvols_of_shape sh); cbn [fst snd files_info with_edits]; eexists; split; reflexivity.
+  cbn [fst snd]. eexists; split; reflexivity.
 Qed.
 
 Lemma get_data_form st :
